@@ -48,6 +48,13 @@ theorem good_nzint (nr : Prop) : Good encNzInt decNzInt (.int :: intKinds) nr :=
     exact ⟨mkInt_wf i (by omega) (by omega), mkInt_typeOf i,
       by simp [decNzInt, mkInt_int i (by omega) (by omega), hn, h0], by simp [Value.strip]⟩
 
+theorem good_posCoin (nr : Prop) : Good encPosCoin decPosCoin [.u8, .u16, .u32, .u64] nr := by
+  apply Good.leaf; intro v it he
+  cases v <;> simp [encPosCoin] at he
+  case nat n =>
+    obtain ⟨⟨h0, hn⟩, rfl⟩ := he
+    exact ⟨mkUInt_wf n hn, mkUInt_typeOf n, by simp [decPosCoin, mkUInt_uint n hn, h0, hn], by simp [Value.strip]⟩
+
 theorem good_bytes (nr : Prop) : Good encBytes decBytes [.bytes] nr := by
   apply Good.leaf; intro v it he
   cases v <;> simp [encBytes] at he
@@ -76,11 +83,11 @@ theorem good_bool (nr : Prop) : Good encBool decBool [.bool] nr := by
     subst he
     cases b <;> exact ⟨by decide, by decide, by simp [decBool, mkBool], by simp [Value.strip]⟩
 
-theorem good_emptyMap (nr : Prop) : Good encEmptyMap (fun _ => some Value.unit) [.map] nr := by
+theorem good_emptyMap (nr : Prop) : Good encEmptyMap decEmptyMap [.map] nr := by
   apply Good.leaf; intro v it he
   cases v <;> simp [encEmptyMap] at he
   subst he
-  exact ⟨by decide, by decide, rfl, by simp [Value.strip]⟩
+  exact ⟨by decide, by decide, by simp [decEmptyMap, mkMapFlat, itemUtf8Ok, utf8OkList], by simp [Value.strip]⟩
 
 theorem typeOf_mem_all (it : Item) : typeOf it ∈ Ty.all := by
   generalize typeOf it = t
